@@ -115,6 +115,8 @@ impl InnerLiterals {
         }
         let hir = Hir::alternation(alts);
         log::debug!("extracted fast line regex: {:?}", hir.to_string());
+        #[cfg(ripgrep_verif)]
+        crate::verif::stash_literals(&hir);
         let re = Regex::builder()
             .configure(Regex::config().utf8_empty(false))
             .build_from_hir(&hir)
